@@ -268,7 +268,11 @@ func failureGrid() []*Scenario {
 		{{Off: CE{K: 'c', V: 65534}, Bytes: []byte{0xf1, 0xf2}}},
 		{{Off: CE{K: 'c', V: 65536}, Bytes: nil}},
 		{{Off: CE{K: 'c', V: 65537}, Bytes: nil}},
-		{{Off: CE{K: 'c', V: 0x80000000}, Bytes: nil}}}
+		{{Off: CE{K: 'c', V: 0x80000000}, Bytes: nil}},
+		// zero-filled segments: over a byte the exporter's store left there, and over an earlier segment of the same module
+		{{Off: CE{K: 'c', V: 10}, Bytes: []byte{0, 0}}},
+		{ok1, {Off: CE{K: 'c', V: 11}, Bytes: []byte{0}}},
+		{{Off: CE{K: 'c', V: 11}, Bytes: []byte{0, 0, 0, 0, 0, 0, 0, 0, 0, 0, 0, 0, 0, 0, 0, 0, 0}}, ok2}}
 	eok := Elem{Table: 0, Off: CE{K: 'c', V: 1}, Items: []int{0}}
 	eok2 := Elem{Table: 0, Off: CE{K: 'c', V: 2}, Items: []int{1}}
 	eoob := Elem{Table: 0, Off: CE{K: 'c', V: 3}, Items: []int{0, 1}}
@@ -536,8 +540,16 @@ func randomModule(r *rand.Rand, n int, prev []*planned) *planned {
 	}
 	for i := r.Intn(3); i > 0 && hasMem; i-- {
 		x := Data{Off: off(uint32(r.Intn(40)))}
-		for j := r.Intn(4); j > 0; j-- {
-			x.Bytes = append(x.Bytes, byte(0x80+r.Intn(0x7f)))
+		// bytes include zeros and whole segments of zeros (.bss-like): an active segment OVERWRITES what an
+		// exporter's segments, earlier segments of the same module or stores left there - also with zeros
+		zeros := r.Intn(3) == 0
+		for j := r.Intn(6); j > 0; j-- {
+			switch {
+			case zeros || r.Intn(4) == 0:
+				x.Bytes = append(x.Bytes, 0)
+			default:
+				x.Bytes = append(x.Bytes, byte(0x80+r.Intn(0x7f)))
+			}
 		}
 		d.Datas = append(d.Datas, x)
 	}
